@@ -62,7 +62,7 @@ def jVerdict (x : Spec.Verdict) : Json :=
     ("arrived", Json.bool x.arrived), ("unsolicited", Json.bool x.unsolicited),
     ("fails_when_down", Json.bool x.failsWhenDown), ("no_exc", Json.bool x.noExc),
     ("distinct", Json.bool x.distinct), ("delivered", Json.bool x.delivered),
-    ("lost_fails", Json.bool x.lostFails), ("no_wrap", Json.bool x.noWrap)]
+    ("lost_fails", Json.bool x.lostFails), ("room", Json.bool x.room)]
 
 /-- `async`: run an operation history on the model of the Twisted client protocol.
     in:  variant "dict"|"fifo", ops, optional "spec": true (evaluate Spec/AsyncClientSpec on the model's
